@@ -246,7 +246,7 @@ def apply_rewrites(toks, rewrites, scope_id, log):
         if rw.scope != "*" and rw.scope != scope_id and not (rw.scope.endswith("*") and scope_id.startswith(rw.scope[:-1])):
             continue
         while True:
-            idx = [k for k, t in enumerate(toks) if t.kind not in L.TRIVIA]
+            idx = [k for k, t in enumerate(toks) if t.kind not in L.TRIVIA and t.kind != "nmark"]
             stoks = [toks[k] for k in idx]
             hit = None
             for si in range(len(stoks)):
